@@ -73,6 +73,8 @@ def run_traced(form_list, conf, request, field_names=(), user=None, chooser=None
     from habutax.inputs import InputStore
     from habutax.solver import Solver
     store = InputStore(conf) if store is None else store
+    import tracer as _tracer
+    _tracer.BLANK_OK.clear()
     if chooser is not None:
         set_chooser(chooser)
     try:
